@@ -69,6 +69,7 @@ pub use interface::*;
 pub mod verif {
     pub use crate::navigate::{verif_nav_state, verif_take_nav_log};
     pub use crate::braille::verif_last_braille;
+    pub use crate::canonicalize::verif_number_patterns;
 }
 
 #[cfg(test)]
